@@ -1163,3 +1163,20 @@ package mqtt
 // C15: a session that ends with the connection (expiry 0, or MQTT 3 clean session) is removed from the registry together with its
 // subscriptions and in-flight messages, unless another connection has taken it over
 //@ callsite mqtt.Clients.Delete C15-only-an-ended-session-is-discarded-at-disconnect: arg1 == cl.ID && expire && !cl.State.isTakenOver.abool && len(cl.State.Inflight.internal) == 0 && len(cl.State.Subscriptions.internal) == 0
+
+// ---- C15: housekeeping of disconnected sessions ----
+// verif:func mqtt.Clients.GetAll trusted
+//@ ensures r0 != nil && fresh(r0)
+//@ ensures forall k string :: (has(r0, k) <==> has(cl.internal, k)) && r0[k] == cl.internal[k] && (has(r0, k) ==> r0[k] != nil && r0[k].State.Inflight != nil && r0[k].State.Subscriptions != nil)
+// verif:func mqtt.Client.StopTime
+//@ ensures r0 == cl.State.disconnected
+// verif:func mqtt.Hooks.OnClientExpired trusted pure
+// the interval after which a disconnected session expires: the client's own (MQTT 5, if it gave one), else the server maximum
+// verif:def effExpiry(s *Server, c *Client) uint32 = (c.Properties.ProtocolVersion == 5 && c.Properties.Props.SessionExpiryIntervalFlag) ? c.Properties.Props.SessionExpiryInterval : s.Options.Capabilities.MaximumSessionExpiryInterval
+// verif:func mqtt.Server.clearExpiredClients modifies=all
+//@ requires s.Clients != nil && s.Options != nil && s.Options.Capabilities != nil && s.hooks != nil
+//@ callsite mqtt.Clients.Delete C15-only-a-disconnected-session-whose-expiry-has-elapsed-is-discarded: arg1 == id && client.State.disconnected != 0 && client.State.disconnected + int64(effExpiry(s, client)) < dt
+//@ callsite mqtt.Clients.Delete C15-a-discarded-session-leaves-no-subscriptions-or-queued-messages: len(client.State.Inflight.internal) == 0 && len(client.State.Subscriptions.internal) == 0 && (!client.State.isTakenOver.abool ==> (forall f string :: !subsview[client.ID][f]))
+// verif:loop mqtt.Server.clearExpiredClients 1
+//@ invariant s.Clients != nil && s.Options != nil && s.Options.Capabilities != nil && s.hooks != nil
+//@ invariant forall k string :: has(rangemap1, k) ==> rangemap1[k] != nil && rangemap1[k].State.Inflight != nil && rangemap1[k].State.Subscriptions != nil
